@@ -246,8 +246,12 @@ FILE_TEXTS = [
     ".include_ips 'nofile_c15.ips', 0\n", ".include 'exists_c15.s'\n", ".include '../nofile_c15.s'\n", ".include '/nofile_c15.s'\n", ".include ''\n", ".include '.'\n",
     ".include 'exists_c15.s'\n.include 'exists_c15.s'\n", ".include 'self_c15.s'\n", "{\n.include 'nofile_c15.s'\n}\n", ".include 'main_c15.s'\n",
     ".include 'cyc_a_c15.s'\n", ".db 1\n.include 'cyc3_a_c15.s'\n.db 2\n", ".include 'cyc_b_c15.s'\n.include 'cyc_a_c15.s'\n",
+    # table-encoded text: strings that half-match longer entries, text several scopes below (or without) a table
+    ".table 'tbl_c15.tbl'\n.text 'AB[emd] At [ x t'\n", ".table 'tbl_c15.tbl'\n.text '[nam[end]t[0x'\n", "{\n{\n.text 'x'\n}\n}\n",
+    ".table 'tbl_c15.tbl'\n.scope s1 {\n.macro tm() {\n.text 'AB'\n}\ntm()\n.for k := 0, 2 {\n.text 'BA'\n}\n{\n{\n{\n.text 'A'\n}\n}\n}\n}\n",
+    ".macro tq() {\n{\n.text 'AB'\n}\n}\n{\n.table 'tbl_c15.tbl'\ntq()\n}\ntq()\n",
 ]
-SIDE_FILES = {"exists_c15.s": ".db 7\n", "self_c15.s": ".db 8\n.include 'self_c15.s'\n",
+SIDE_FILES = {"tbl_c15.tbl": "41=A\n42=B\n80=th\nF0=[end]\nF1=[name]\n", "exists_c15.s": ".db 7\n", "self_c15.s": ".db 8\n.include 'self_c15.s'\n",
               "cyc_a_c15.s": ".db 1\n.include 'cyc_b_c15.s'\n", "cyc_b_c15.s": ".db 2\n.include 'cyc_a_c15.s'\n",
               "cyc3_a_c15.s": ".include 'cyc3_b_c15.s'\n", "cyc3_b_c15.s": "nop\n.include 'cyc3_c_c15.s'\n", "cyc3_c_c15.s": ".include 'cyc3_a_c15.s'\nnop\n"}
 
@@ -328,7 +332,7 @@ def run_shard(shard: dict) -> Res:
                 toks = [rng.choice(ALPHABET + [".include", "'nofile_c15.s'", "'exists_c15.s'", "'sub/x.s'"]) for _ in range(rng.randint(2, 12))]
                 texts.append("".join(t + rng.choice(["", " ", " ", "\n"]) for t in toks))
             for text in texts:
-                for via in ("file_abs", "file_rel"):
+                for via in ("file_abs", "file_rel", "string"):
                     run_text(res, text, "files", via)
             res.sample({"family": "files", "text": FILE_TEXTS[1]})
         elif shard["kind"] == "recursion":
